@@ -258,6 +258,9 @@ func RunCase(r *vh.Run, c Case, sample bool) {
 		case s.Blocked:
 			win = "blocked-then-opened"
 		}
+		if s.ConnBound {
+			win += "+connection-window-limited"
+		}
 		seg := pl.SegC + "/" + pl.SegS
 		if pl.PrefaceCut > 0 {
 			seg += "+split-preface"
